@@ -1,6 +1,6 @@
 """C20 Introspection reports the true number of links and counts every message."""
 from mirlib import AnchorMissing, describe_call, describe_operand, guards, _suffix_match
-from rules.common import aggregates, callers_by_name, calls_on_field, owner_def, where
+from rules.common import named_argument_rule, aggregates, callers_by_name, calls_on_field, owner_def, where
 
 META = {
     "explanation": (
@@ -283,3 +283,6 @@ def run(ctx):
                 m = dict(zip(fl, ops))
                 r.check(m.get("link_count", "").endswith("link_count") and m.get("event_count", "").endswith("event_count") and m.get("command_count", "").endswith("command_count"),
                         "make_pulse/fields", mp.loc(line), "pulse fields are copied from the snapshot's fields of the same name", "make_pulse mixes up snapshot fields: %s" % m)
+
+    with ctx.rule("C20.R7", "T5", "named arguments are passed in their parameters' positions (no two flags or ids change places at a call site)", floor=3) as r:
+        named_argument_rule(ctx, r, [("swimos_runtime", "swimos_runtime::agent::reporting"), ("swimos_runtime", "swimos_runtime::agent::task::links"), ("swimos_introspection", "swimos_introspection::")], allow={("saturating_add", "n"): "commutative helper", ("add_descendant", "node"): "receiver"})
